@@ -2,6 +2,7 @@ package rules
 
 import (
 	"fmt"
+	"sort"
 	"go/ast"
 	"go/token"
 	"go/types"
@@ -80,6 +81,41 @@ func RuleN2(c *Ctx) {
 		sc.Undecided("slot", "-", "no store into rawPathVariable.schema found")
 	}
 
+	// other JSight-only slots: every struct field of type Schema / *Schema all of whose stores
+	// are JSight values (e.g. Query.Schema, headers) needs no test at its readers either
+	n2.jsightSlots = map[*types.Var]bool{slot: n2.slotOK}
+	schemaT := c.Named("catalog", "Schema")
+	for _, pk := range c.P.Repo {
+		for _, name := range pk.Types.Scope().Names() {
+			tn, ok := pk.Types.Scope().Lookup(name).(*types.TypeName)
+			if !ok {
+				continue
+			}
+			st, ok := tn.Type().Underlying().(*types.Struct)
+			if !ok {
+				continue
+			}
+			for i := 0; i < st.NumFields(); i++ {
+				f := st.Field(i)
+				t := f.Type()
+				if p, ok := t.(*types.Pointer); ok {
+					t = p.Elem()
+				}
+				if schemaT != nil && types.Identical(t, schemaT) && f != slot {
+					n2.jsightSlots[f] = n2.allStoresJSight(f)
+				}
+			}
+		}
+	}
+	var jsOnly []string
+	for f, ok := range n2.jsightSlots {
+		if ok {
+			jsOnly = append(jsOnly, f.Name()+"@"+ownerTypeName(f))
+		}
+	}
+	sort.Strings(jsOnly)
+	sc.Info("jsight-only-slots", "-", strings.Join(jsOnly, ", "))
+
 	// (a) every dereference / hand-over of S.ContentJSight
 	counts := map[string]int{}
 	c.P.Funcs(func(pk *pkgT, fd *ast.FuncDecl) {
@@ -130,6 +166,89 @@ type n2 struct {
 	unmarshal *types.Func
 	jsight    *types.Const
 	slotOK    bool
+	jsightSlots map[*types.Var]bool
+}
+
+// allStoresJSight: every store into the field (assignment or composite literal) is a
+// JSight value, following setter parameters to their callers.
+func (n *n2) allStoresJSight(f *types.Var) bool {
+	c := n.c
+	ok := true
+	found := 0
+	c.P.Funcs(func(pk *pkgT, fd *ast.FuncDecl) {
+		info := pk.TypesInfo
+		check := func(val ast.Expr, at ast.Node) {
+			found++
+			body := innermostBody(fd, at)
+			cs := callSite{Pk: pk, Decl: fd, Body: body.body, Lit: body.lit}
+			if !n.jsightValueDeep(cs, val, at, 0) {
+				ok = false
+			}
+		}
+		ast.Inspect(fd.Body, func(x ast.Node) bool {
+			switch y := x.(type) {
+			case *ast.AssignStmt:
+				for i, l := range y.Lhs {
+					if fieldSel(info, l, f) && len(y.Lhs) == len(y.Rhs) {
+						check(y.Rhs[i], y)
+					}
+				}
+			case *ast.KeyValueExpr:
+				if id, isId := y.Key.(*ast.Ident); isId && info.ObjectOf(id) == f {
+					check(y.Value, y)
+				}
+			}
+			return true
+		})
+	})
+	return ok && found > 0
+}
+
+func (n *n2) jsightValueDeep(cs callSite, val ast.Expr, at ast.Node, depth int) bool {
+	c := n.c
+	info := cs.Pk.TypesInfo
+	cf := c.CFG(cs.Pk, cs.Body)
+	val = stripPtr(val)
+	if ok, _ := n.isJSightValue(cs.Pk, cf, val, at); ok {
+		return true
+	}
+	if depth > 3 || cs.Lit != nil {
+		// a value captured by a literal from the enclosing function
+		if cs.Lit != nil {
+			outer := callSite{Pk: cs.Pk, Decl: cs.Decl, Body: cs.Decl.Body}
+			if id, isId := ast.Unparen(val).(*ast.Ident); isId && paramIndex(outer, info, info.ObjectOf(id)) >= 0 {
+				return n.paramJSight(outer, info.ObjectOf(id), depth)
+			}
+			ocf := c.CFG(cs.Pk, cs.Decl.Body)
+			if ok, _ := n.isJSightValue(cs.Pk, ocf, val, at); ok {
+				return true
+			}
+		}
+		return false
+	}
+	if id, isId := ast.Unparen(cf.Resolve(val)).(*ast.Ident); isId && paramIndex(cs, info, info.ObjectOf(id)) >= 0 {
+		return n.paramJSight(cs, info.ObjectOf(id), depth)
+	}
+	return false
+}
+
+func (n *n2) paramJSight(cs callSite, obj types.Object, depth int) bool {
+	c := n.c
+	pi := paramIndex(cs, cs.Pk.TypesInfo, obj)
+	f := declObj(cs)
+	if f == nil || pi < 0 || c.usedAsValue(f) {
+		return false
+	}
+	callers := c.callSitesOf(f)
+	if len(callers) == 0 {
+		return false
+	}
+	for _, cc := range callers {
+		if pi >= len(cc.Call.Args) || !n.jsightValueDeep(cc, cc.Call.Args[pi], cc.Call, depth+1) {
+			return false
+		}
+	}
+	return true
 }
 
 // isJSightValue: the stored value is the result of UnmarshalJSightSchema or is
@@ -143,7 +262,7 @@ func (n *n2) isJSightValue(pk *pkgT, cf *cfgx.Func, val ast.Expr, at ast.Node) (
 	// x, err := UnmarshalJSightSchema(...) — a two-value define
 	if id, ok := ast.Unparen(val).(*ast.Ident); ok {
 		if def := multiDefCall(cf, info, id); def != nil && Callee(info, def) == n.unmarshal {
-			if cf.AssignedOnce(info.ObjectOf(id)) {
+			if cf.WrittenOnce(info.ObjectOf(id)) {
 				return true, "result of UnmarshalJSightSchema"
 			}
 		}
@@ -258,6 +377,12 @@ func (n *n2) discharged(cs callSite, s ast.Expr, at ast.Node, depth int) (bool, 
 	}
 	if cf.MustAt(at, n.genFor(info, cf, s), genStmt, kill) {
 		return true, "notation / nil test or fresh assignment on every path"
+	}
+	// any other JSight-only slot
+	if sel, ok := ast.Unparen(rs).(*ast.SelectorExpr); ok {
+		if fv, ok := info.ObjectOf(sel.Sel).(*types.Var); ok && fv != n.slot && n.jsightSlots[fv] {
+			return true, fv.Name() + " of " + ownerTypeName(fv) + " is a JSight-only slot (every store is a result of UnmarshalJSightSchema)"
+		}
 	}
 	// the JSight-only slot
 	if sel, ok := ast.Unparen(rs).(*ast.SelectorExpr); ok && info.ObjectOf(sel.Sel) == n.slot {
